@@ -232,6 +232,113 @@ theorem partial_compaction_invisible {l l' : List Ver} (h : Partial l l') (hs : 
       | here a b l hb => simp [dedupAdj, dedupFrom, hb]
       | there a l l' h => simp only [dedupAdj]; rw [dropDup_dedupFrom h]
 
+/-! ## a writer racing the compactor -/
+
+theorem dropDup_append {l l' : List Ver} (h : DropDup l l') (w : List Ver) : DropDup (l ++ w) (l' ++ w) := by
+  induction h with
+  | here a b l hb => exact .here a b (l ++ w) hb
+  | there a l l' _ ih => exact .there a _ _ ih
+
+theorem partial_append {l l' : List Ver} (h : Partial l l') (w : List Ver) : Partial (l ++ w) (l' ++ w) := by
+  induction h with
+  | refl l => exact .refl _
+  | step l l1 l2 hd _ ih => exact .step _ _ _ (dropDup_append hd w) ih
+
+theorem partial_cons {l l' : List Ver} (h : Partial l l') (a : Ver) : Partial (a :: l) (a :: l') := by
+  induction h with
+  | refl l => exact .refl _
+  | step l l1 l2 hd _ ih => exact .step _ _ _ (.there a _ _ hd) ih
+
+theorem partial_trans {l l' l'' : List Ver} (h : Partial l l') (h2 : Partial l' l'') : Partial l l'' := by
+  induction h with
+  | refl l => exact h2
+  | step l l1 l2 hd _ ih => exact .step _ _ _ hd (ih h2)
+
+/-- a complete compaction is one of the states `Partial` describes: all removals applied. -/
+theorem partial_dedupAdj (l : List Ver) : Partial l (dedupAdj l) := by
+  cases l with
+  | nil => exact .refl _
+  | cons a l =>
+    simp only [dedupAdj]
+    induction l generalizing a with
+    | nil => exact .refl _
+    | cons v vs ih =>
+      simp only [dedupFrom]
+      by_cases h : v.2 = a.2
+      · simp only [h, if_true]
+        exact .step _ _ _ (.here a v vs h) (ih a)
+      · simp only [h, if_false]
+        exact partial_cons (ih v) a
+
+/-- **T-C12-5 (a writer racing the compactor)**: the compactor decides from a snapshot `l` of the entity's
+versions and removes any subset of the duplicates it found there (`lc`; all of them for a compaction that
+completes); meanwhile a writer appends the versions `w`. Of the history `l ++ w` that a reader would see
+without compaction, what is left (`lc ++ w`) has lost nothing but versions, shows the same latest content, the
+same content at every past instant, and compacts to the same final state. The latest *pointer* needs the guard
+of `compactRaced` (theorem `raced_pointer_written` below): without it the last flush re-points the entity at
+the snapshot's predecessor although `w` is newer. -/
+theorem racing_writer_invisible {l lc : List Ver} (w : List Ver) (h : Partial l lc)
+    (hs : (l ++ w).Pairwise (fun x y => x.1 ≤ y.1)) :
+    (lc ++ w).Sublist (l ++ w) ∧ lastContent (lc ++ w) = lastContent (l ++ w)
+    ∧ (∀ t, lastContent (upTo t (lc ++ w)) = lastContent (upTo t (l ++ w)))
+    ∧ dedupAdj (lc ++ w) = dedupAdj (l ++ w) :=
+  partial_compaction_invisible (partial_append h w) hs
+
+theorem racing_writer_invisible_complete (l w : List Ver) (hs : (l ++ w).Pairwise (fun x y => x.1 ≤ y.1)) :
+    lastContent (dedupAdj l ++ w) = lastContent (l ++ w)
+    ∧ (∀ t, lastContent (upTo t (dedupAdj l ++ w)) = lastContent (upTo t (l ++ w))) :=
+  let r := racing_writer_invisible w (partial_dedupAdj l) hs
+  ⟨r.2.1, r.2.2.1⟩
+
+theorem lookup_setAssoc_other {κ β} [BEq κ] [LawfulBEq κ] (k k2 : κ) (v : β) (hne : k2 ≠ k) :
+    ∀ l : List (κ × β), (setAssoc k v l).lookup k2 = l.lookup k2
+  | [] => by
+    have : (k2 == k) = false := by simpa using hne
+    simp [setAssoc, List.lookup, this]
+  | (k', v') :: rest => by
+    simp only [setAssoc]
+    by_cases h1 : (k' == k) = true
+    · have hk : k' = k := by simpa using h1
+      have : (k2 == k) = false := by simpa using hne
+      simp [h1, List.lookup, hk, this]
+    · have h1' : (k' == k) = false := by simpa using h1
+      simp only [h1', Bool.false_eq_true, if_false, List.lookup]
+      rw [lookup_setAssoc_other k k2 v hne rest]
+
+/-- key level: a guarded flush never moves the latest pointer of an entity the writer has written since
+the snapshot — whatever the compactor computed on its snapshot. -/
+theorem raced_pointer_written (db0 dbw : DB) (ds : Nat) (key : Nat × Nat)
+    (hw : dbw.latest.lookup key ≠ db0.latest.lookup key) :
+    (compactRaced true db0 dbw ds).latest.lookup key = dbw.latest.lookup key := by
+  simp only [compactRaced]
+  generalize ((compact db0 ds).latest.filter fun p => db0.latest.lookup p.1 != some p.2) = rew
+  suffices h : ∀ (l : List ((Nat × Nat) × VKey)), l.lookup key = dbw.latest.lookup key →
+      (rew.foldl (fun l p => if (!true || l.lookup p.1 == db0.latest.lookup p.1) = true then setAssoc p.1 p.2 l else l) l).lookup key
+        = dbw.latest.lookup key from h _ rfl
+  induction rew with
+  | nil => intro l hl; exact hl
+  | cons p rest ih =>
+    intro l hl
+    simp only [List.foldl_cons]
+    apply ih
+    by_cases hk : p.1 = key
+    · have : (l.lookup p.1 == db0.latest.lookup p.1) = false := by
+        rw [hk, hl]; simpa using hw
+      simp [this, hl]
+    · by_cases hc : (!true || l.lookup p.1 == db0.latest.lookup p.1) = true
+      · simp only [hc, if_true]
+        rw [lookup_setAssoc_other p.1 key p.2 (fun h => hk h.symm) l]; exact hl
+      · simp only [hc]; exact hl
+
+-- the defect the guard repairs (D14), on the model: entity 1 has a legacy duplicate as its newest version; the
+-- compactor's snapshot is taken, a writer stores a new version, the flush lands. Unguarded, the entity's latest
+-- content is the old one again although the writer's version is in the feed; guarded, it is the writer's.
+example : let a : Ent := ⟨1, false, [], "1"⟩; let b : Ent := ⟨1, false, [], "2"⟩
+    let db0 := injectVersion (storeBatch {} 2 10 [a]) 2 20 a
+    let dbw := storeBatch db0 2 30 [b]
+    (compactRaced false db0 dbw 2).stored 2 1 = some a ∧ (compactRaced true db0 dbw 2).stored 2 1 = some b
+    ∧ (changesPage (compactRaced true db0 dbw 2) 2 0 0 false).1 = [a, b] := by decide
+
 /-! ## tie to the Go source (regenerated facts) -/
 open Hub.Facts.Compact in
 theorem facts_shape :
@@ -240,7 +347,11 @@ theorem facts_shape :
     ∧ baseAdvance = ["!isDuplicate"]
     ∧ latestRewrite = ["isLatestVersion"]
     ∧ refDedupCond = ["e.IsDeleted == d.prev.IsDeleted", "e.IsDeleted == d.prev.IsDeleted", "reflect.DeepEqual(d.prev.References[k], stringOrArrayValue)", "e.IsDeleted == d.prev.IsDeleted", "!identical"]
-    ∧ flushOrder = ["strategy.flush", "txn.Get", "txn.Delete", "txn.Set"]
+    ∧ flushOrder = ["strategy.flush", "txn.Get", "txn.Delete", "txn.Get", "txn.Set"]
+    -- a latest pointer is re-pointed only when it still holds the json key the snapshot showed (the removed version)
+    ∧ rewriteLoop = ["txn.Get", "ret-on-err", "item.ValueCopy", "ret-on-err", "bytes.Equal",
+        "if !bytes.Equal(current, ops.RewriteExpected[i]) {", "continue", "}", "txn.Set", "ret-on-err"]
+    ∧ rewriteExpected = ["append(rewriteExpected, jsonKey)"]
     ∧ flushEveryTime = "bufferedKeys, err := strategy.flush(txn)"
     ∧ resetAfterFlush = ["reset"] := by decide
 
